@@ -410,6 +410,65 @@ def run(ctx):
             preds = [d for k, d in sf]
             ok = sorted(k for k, d in sf) == ["field", "variant"] and all(d == [{"elem.skip=False"}] for k, d in sf)
         ctx.ob("C20.S.bounds-cover-trait-uses", f.key, "only skipped fields / variants are left out", ok, "filters keep an element under %s" % preds)
+    # `unknown_field_with_alts(__other, &[#(#names),*])` type-checks only with at least one name (an empty
+    # `&[]` has no element type): the template stands under "non-empty" of the very list it interpolates
+    def _core(x):
+        for _ in range(6):
+            m_ = re.match(r"^(?:core::iter::traits::iterator::Iterator::(?:collect|peekable)|quote::__private::ext::Rep\w+::quote_into_iter|<[^()]* as quote::__private::ext::Rep\w+<'q>>::quote_into_iter|alloc::vec::Vec::<T, A>::as_slice|core::slice::<impl \[T\]>::iter)\((.*)\)(?:\.0)?$", x)
+            if not m_:
+                break
+            x = m_.group(1)
+        # (compare modulo auto-deref wrappers and the parentheses they leave behind)
+        x = re.sub(r"<[^()]* as core::ops::deref::Deref(Mut)?>::deref(_mut)?", "", x)
+        return x.replace("(", "").replace(")", "")
+    n_alts = 0
+    for key in (common.TOK % "from_meta_impl::FromMetaImpl<'_>", "darling_core::codegen::variant_data::FieldsGen::<'a>::core_loop"):
+        f0 = ctx.fn(key)
+        if not f0:
+            continue
+        seen_g = set()
+        for g in ctx.generator_group(f0) + ctx.local_callees(f0, depth=2):
+            if g.key in seen_g:
+                continue
+            seen_g.add(g.key)
+            Tg = tpl.Templates(g)
+            for s in Tg.by_stream:
+                own = [tk for tk in Tg.by_stream[s] if tk.kind == "ident" and tk.text == "unknown_field_with_alts"]
+                if not own:
+                    continue
+                reps = [tk for tk in Tg.stream_tokens(s) if tk.kind == "interp" and "RepInterp" in (tk.ty or "")]
+                srcs = set()
+                for tk in reps:
+                    m_ = re.search(r"quote_into_iter\((.*)\)\)?\.0", tk.expr or "") or re.search(r"quote_into_iter\((.*)\)", tk.expr or "")
+                    if m_:
+                        inner = m_.group(1)
+                        # cut at the matching parenthesis of quote_into_iter(
+                        depth_, end = 0, len(inner)
+                        for i_, ch in enumerate(inner):
+                            if ch == "(":
+                                depth_ += 1
+                            elif ch == ")":
+                                if depth_ == 0:
+                                    end = i_
+                                    break
+                                depth_ -= 1
+                        srcs.add(_core(inner[:end]))
+                n_alts += 1
+                pcs = ctx.pc_strs(g, own[0].blk)
+                ok = bool(pcs) and bool(srcs)
+                for d in pcs:
+                    subj = set()
+                    for a_ in d:
+                        m1 = re.match(r"^len\((.*)\)=\('not-in', \(0,\)\)$", a_)
+                        m2 = re.match(r"^is_some\(core::iter::adapters::peekable::Peekable::<I>::peek\((.*)\)\)=True$", a_)
+                        if m1:
+                            subj.add(_core(m1.group(1)))
+                        if m2:
+                            subj.add(_core(m2.group(1)))
+                    ok = ok and bool(subj & srcs)
+                ctx.ob("C20.G.alts-list-nonempty", g.key, "unknown_field_with_alts(.., &[names]) only with names", ok,
+                       "the interpolated list is %s; the template stands under %s" % ([x[:120] for x in srcs], [[a_[:120] for a_ in sorted(d) if a_.startswith(("len(", "is_some("))] for d in pcs]))
+    ctx.floor("C20.G.alts", "templates with a suggestion list", n_alts, 2)
     # `Default` is demanded of a field type only where the documentation says so (skipped fields)
     from .C01 import default_synthesis_rules
     default_synthesis_rules(ctx, "C20.S")
